@@ -122,7 +122,7 @@ struct Fin {
 				ctx.desc << " from " << vp::ops::kind_name[kind];
 				vp::ops::with_operand<D, T, true>(src, kind, [&](auto& w) {
 					long const copies0 = vp::obs().assign_copy + vp::obs().ctor_copy;
-					v = w.element_moved();
+					if((skind & 64U) != 0) { v = w.element_moved(); } else { std::move(v) = w.element_moved(); }  // named and temporary destination
 					long const copies1 = vp::obs().assign_copy + vp::obs().ctor_copy;
 					(void)copies0; (void)copies1;
 					if constexpr(std::is_same_v<T, vp::Tracked>) {  // moving from a view moves from exactly the viewed elements
